@@ -545,7 +545,7 @@ func evalSubqueryForValue(ctx context.Context, scope *ReferenceScope, expr parse
 		return nil, NewSubqueryTooManyRecordsError(expr)
 	}
 
-	if view.RecordLen() < 1 {
+	if view.RecordLen() < 1 || view.FieldLen() < 1 {
 		return value.NewNull(), nil
 	}
 
@@ -1116,7 +1116,7 @@ func evalSubqueryForArray(ctx context.Context, scope *ReferenceScope, expr parse
 		return nil, NewSubqueryTooManyFieldsError(expr)
 	}
 
-	if view.RecordLen() < 1 {
+	if view.RecordLen() < 1 || view.FieldLen() < 1 {
 		return nil, nil
 	}
 
